@@ -189,3 +189,17 @@ pub fn with_small_lane_buf(cfgs: &[Cfg]) -> Vec<Cfg> {
     }
     out
 }
+
+/// Copies of the roomy configurations in which the runtime -> lane request channels hold only a
+/// few bytes: every request the runtime forwards to a lane reaches the agent in pieces.
+pub fn with_small_lane_in_buf(cfgs: &[Cfg]) -> Vec<Cfg> {
+    let mut out = vec![];
+    for c in cfgs.iter().filter(|c| c.cap == 4096 && c.credit == 0 && c.lane_buf == 4096) {
+        for n in [8usize, 11] {
+            let mut c = c.clone();
+            c.lane_in_buf = n;
+            out.push(c);
+        }
+    }
+    out
+}
